@@ -84,20 +84,7 @@ theorem nodup_allTokens (d : Desc)
 
 /-! ## the coherent, clash-free universe (the property's provisos) -/
 
-/-- `U id ts left` is *the* content of instance `id` at timestamp `ts` (tombstone iff `left`). -/
-structure Univ (U : String → Int → Bool → Inst) : Prop where
-  id_eq : ∀ id ts l, (U id ts l).id = id
-  ts_eq : ∀ id ts l, (U id ts l).ts = ts
-  left_iff : ∀ id ts l, (U id ts l).state = .LEFT ↔ l = true
-  sorted : ∀ id ts l, sortedStrict (U id ts l).tokens = true
-  left_tokens : ∀ id ts, (U id ts true).tokens = []
-  noclash : ∀ id ts l id' ts' l', id ≠ id' → ∀ t ∈ (U id ts l).tokens, t ∉ (U id' ts' l').tokens
-
-/-- a descriptor drawn from the universe: unique ids, positive timestamps, coherent contents -/
-structure Drawn (U : String → Int → Bool → Inst) (d : Desc) : Prop where
-  nodup : (ids d).Nodup
-  pos : ∀ e ∈ d, e.ts ≥ 1
-  coh : ∀ e ∈ d, e = U e.id e.ts (decide (e.state = .LEFT))
+-- `Univ` and `Drawn` are defined in `Model/C03.lean` (statement vocabulary)
 
 theorem normInst_U {U} (hU : Univ U) (id : String) (ts : Int) (l : Bool) : normInst (U id ts l) = U id ts l := by
   unfold normInst
